@@ -110,7 +110,7 @@ def run(rep):
              'and the walk over the extendor list (iff not) both run forward, '
              'probe exact keys / the exact name, return the first non-None hit; '
              'recursion with i+1 and unchanged specs/provided/name; miss -> None',
-             floor=11)
+             floor=7)
     rep.rule('R04.3', 'add_extendor keeps everything `provided` extends in '
              'front (most general first) for every interface of provided.__iro__; '
              'remove_extendor removes by equality from every __iro__ entry',
